@@ -101,8 +101,8 @@ static void op_note_c06(Exec& x, const Json&, int)
 	}
 }
 
-static struct Reg {
-	Reg()
+static struct RegParityInv {
+	RegParityInv()
 	{
 		Exec::register_op("note_c06", op_note_c06);
 		Family f;
